@@ -103,7 +103,7 @@ fn tree_text(m: &ModelSpec) -> Vec<u8> {
                     leaf: &dyn Fn(usize) -> String,
                 ) {
                     if let TreeSpec::Node { q, no, yes } = t {
-                        let mut child = |c: &TreeSpec, next_id: &mut i64| -> (String, Option<i64>) {
+                        let child = |c: &TreeSpec, next_id: &mut i64| -> (String, Option<i64>) {
                             match c {
                                 TreeSpec::Leaf(i) => (leaf(*i), None),
                                 _ => {
